@@ -60,7 +60,11 @@ var (
 )
 
 func setup() {
-	tag = "v" + strconv.FormatInt(int64(os.Getpid()), 36)
+	// the tag marks this PROCESS's names in /tmp (shards run side by side). It starts and ends with an upper-case
+	// letter, which the base-36 digits between them never are, so no process's tag occurs inside another's names
+	// (with "v"+pid a process whose pid reads "j0x" matched every name of the process whose pid reads "j0":
+	// "vj0" + "x" + counter - the cause of two "directory appeared out of nowhere" reports under load)
+	tag = "V" + strconv.FormatInt(int64(os.Getpid()), 36) + "Q"
 	d, err := os.MkdirTemp("", "c18sb")
 	if err != nil {
 		panic(err)
